@@ -316,14 +316,37 @@ class Interp:
                     except Exception:
                         out.append((q, Opq(self.key(q, n))))
                 else:
-                    out.append((q, Opq(self.key(q, n))))
+                    # an index that evaluates to a constant is spelled by its value (choices[wide] with wide = 0 reads choices[0])
+                    txt = None
+                    if not isinstance(n.slice, ast.Slice):
+                        iv = self.ev(q, n.slice)
+                        if len(iv) == 1 and isinstance(iv[0][1], Const) and isinstance(iv[0][1].v, (int, str)) and not isinstance(n.slice, ast.Constant):
+                            txt = "%s[%r]" % (self.key(q, n.value), iv[0][1].v)
+                    out.append((q, Opq(txt or self.key(q, n))))
             return out
         if isinstance(n, ast.Subscript) and U(n.value) in self.sub_bases and not isinstance(n.slice, ast.Slice):
             return [(q, Ctor("sub", [Opq(U(n.value)), v], {}, n)) for q, v in self.ev(p, n.slice)]
+        if isinstance(n, ast.Call) and isinstance(n.func, ast.Attribute) and isinstance(n.func.value, ast.Call) and U(n.func.value.func) == "getattr" \
+                and len(n.func.value.args) == 2 and not n.func.value.keywords:
+            # getattr(obj, <constant name>).method(...) is obj.<name>.method(...)
+            nv = self.ev(p, n.func.value.args[1])
+            if len(nv) == 1 and isinstance(nv[0][1], Const) and isinstance(nv[0][1].v, str) and nv[0][1].v.isidentifier():
+                recv = ast.copy_location(ast.Attribute(value=n.func.value.args[0], attr=nv[0][1].v, ctx=ast.Load()), n)
+                n2 = ast.copy_location(ast.Call(func=ast.copy_location(ast.Attribute(value=recv, attr=n.func.attr, ctx=ast.Load()), n), args=n.args, keywords=n.keywords), n)
+                return self.ev(nv[0][0], n2)
         if isinstance(n, ast.Call):
             f = U(n.func)
             if f in self.hooks:
                 return [(p, self.hooks[f](self, p, n))]
+            if f == "getattr" and len(n.args) in (2, 3) and not n.keywords:
+                nv = self.ev(p, n.args[1])
+                if len(nv) == 1 and isinstance(nv[0][1], Const) and isinstance(nv[0][1].v, str) and nv[0][1].v.isidentifier():
+                    attr = ast.copy_location(ast.Attribute(value=n.args[0], attr=nv[0][1].v, ctx=ast.Load()), n)
+                    return self.ev(nv[0][0], attr)
+            if f == "len" and len(n.args) == 1 and not n.keywords:
+                lv = self.ev(p, n.args[0])
+                if len(lv) == 1 and isinstance(lv[0][1], Ctor) and lv[0][1].cls == "list":
+                    return [(lv[0][0], Const(len(lv[0][1].args)))]
             # calls on / with constants only: fold (table lookups, helper functions over the finite grammar)
             folded = self.fold_call(p, n, f)
             if folded is not None:
@@ -410,10 +433,26 @@ class Interp:
                     outs = nxt
                 if outs and all(any(isinstance(x, Ctor) for x in args) for q, args in outs):
                     return [(q, Ctor("meth:" + n.func.attr, args, {}, n)) for q, args in outs]
-            return [(p, Opq(self.key(p, n), unk=self.all_const_call(p, n)))]
+            return [(p, Opq(self.key(p, n), unk=self.all_const_call(p, n) or self.taints_unknown(p, n)))]
         if isinstance(n, ast.Compare) or isinstance(n, ast.BoolOp) or (isinstance(n, ast.UnaryOp) and isinstance(n.op, ast.Not)):
             return [(q, Const(t)) for q, t in self.cond(p, n)]
         return [(p, self.fold_else_unknown(p, n))]
+
+    def taints_unknown(self, p, n):
+        """the receiver or an argument of the call is itself a value of unmodelled shape: so is the result"""
+        exprs = ([n.func.value] if isinstance(n.func, ast.Attribute) else []) + list(n.args) + [k.value for k in n.keywords]
+        for e in exprs:
+            if isinstance(e, ast.Name) and e.id in ("self", "cls"):
+                continue
+            try:
+                r = self.ev(p, e)
+            except Exception:
+                return True
+            if any("<?!" in repr(v) for _, v in r):
+                return True
+        if isinstance(n.func, ast.Name) and "<?!" in repr(p.env.get(n.func.id, "")):
+            return True
+        return False
 
     def all_const_call(self, p, n):
         """a call that reads no free input (receiver and arguments are constants) and still could not be folded: its result is not
@@ -450,7 +489,9 @@ class Interp:
         try:
             return Const(fold(n, self.const_env(p)))
         except Exception:
-            return Opq(self.key(p, n), unk=True)
+            # a slice / element of an input buffer is input, not a gap of the interpreter
+            free = isinstance(n, ast.Subscript) and not any(isinstance(x, (ast.ListComp, ast.GeneratorExp, ast.Lambda)) for x in ast.walk(n))
+            return Opq(self.key(p, n), unk=not free)
 
     def fold_call(self, p, n, f):
         from .consteval import fold_body, Raised, NotConst
@@ -623,6 +664,16 @@ class Interp:
         return res
 
     def binop(self, p, n, l, r):
+        if isinstance(n.op, ast.Add):
+            def as_items(v):
+                if isinstance(v, Ctor) and v.cls == "list":
+                    return list(v.args)
+                if isinstance(v, Const) and isinstance(v.v, (list, tuple)):
+                    return [Const(x) for x in v.v]
+                return None
+            li, ri = as_items(l), as_items(r)
+            if li is not None and ri is not None and (isinstance(l, Ctor) or isinstance(r, Ctor)):
+                return Ctor("list", li + ri, {})
         if isinstance(n.op, (ast.Div, ast.FloorDiv)) and self.call_ctors:
             return Ctor("div", [l, r], {}, n)
         if isinstance(l, Const) and isinstance(r, Const) and isinstance(l.v, int) and isinstance(r.v, int) and type(n.op) in ARITH:
@@ -643,6 +694,10 @@ class Interp:
                 for k, v in rr.terms.items():
                     terms[k] = terms.get(k, 0) + sg * v
                 return Lin(terms, ll.c + sg * rr.c)
+        if isinstance(n.op, ast.LShift) and isinstance(r, Const) and isinstance(r.v, int) and 0 <= r.v < 32:
+            ll = self.aslin(l)
+            if ll:
+                return Lin({k: v * (1 << r.v) for k, v in ll.terms.items()}, ll.c * (1 << r.v))
         if isinstance(n.op, ast.Mult):
             ll, rr = self.aslin(l), self.aslin(r)
             if ll and rr and not rr.terms:
@@ -739,6 +794,24 @@ class Interp:
                 return [(p, bool(vs[0][1].args))]
         if isinstance(n, ast.Compare) and len(n.ops) == 1:
             ls = self.ev(p, n.left)
+            if len(ls) > 1 or (len(ls) == 1 and len(self.ev(ls[0][0], n.comparators[0])) > 1):
+                # an operand with several continuations (an interpreted helper with several returns): compared per continuation
+                res = []
+                for q, l in ls:
+                    for q2, r in self.ev(q, n.comparators[0]):
+                        if isinstance(l, Const) and isinstance(r, Const) and type(n.ops[0]) in CMP:
+                            try:
+                                res.append((q2, bool(CMP[type(n.ops[0])](l.v, r.v))))
+                                continue
+                            except Exception:
+                                pass
+                        atom = self.key(q2, n)
+                        a, b = q2.copy(), q2.copy()
+                        for x_, t_ in ((a, True), (b, False)):
+                            x_.conds.append((atom, t_))
+                            x_.unk.append(atom)
+                        res += [(a, True), (b, False)]
+                return res
             if len(ls) == 1:
                 rs = self.ev(ls[0][0], n.comparators[0])
                 if len(rs) == 1:
@@ -750,7 +823,9 @@ class Interp:
                             pass
                     # a computed number / constructed object is never None
                     for x, y in ((l, r), (r, l)):
-                        if isinstance(y, Const) and y.v is None and isinstance(x, (Bits, Lin)) or (isinstance(x, Ctor) and x.cls[:1].isupper() and isinstance(y, Const) and y.v is None):
+                        # (a Value's .int is an integer in every value class of this repository: never None)
+                        int_attr = isinstance(x, Opq) and not x.unk and re.search(r"\.int(@\d+)?$", x.text) is not None and isinstance(y, Const) and y.v is None
+                        if int_attr or isinstance(y, Const) and y.v is None and isinstance(x, (Bits, Lin)) or (isinstance(x, Ctor) and x.cls[:1].isupper() and isinstance(y, Const) and y.v is None):
                             if isinstance(n.ops[0], (ast.Is, ast.Eq)):
                                 return [(p, False)]
                             if isinstance(n.ops[0], (ast.IsNot, ast.NotEq)):
@@ -766,6 +841,30 @@ class Interp:
             vs = self.ev(p, n)
             if len(vs) == 1 and isinstance(vs[0][1], Const):
                 return [(vs[0][0], bool(vs[0][1].v))]
+            if len(vs) > 1 or (len(vs) == 1 and vs[0][0] is not p):
+                # an interpreted helper: one continuation per return of the callee, each with its own path conditions
+                out = []
+                for q, v in vs:
+                    if isinstance(v, Const):
+                        out.append((q, bool(v.v)))
+                    elif isinstance(v, (Bits, Lin)) or (isinstance(v, Ctor) and v.cls[:1].isupper()):
+                        out.append((q, True if not isinstance(v, Bits) or v.mask else None))
+                    else:
+                        out.append((q, None))
+                res = []
+                for q, t in out:
+                    if t is not None:
+                        res.append((q, t))
+                        continue
+                    atom = self.key(q, n)
+                    a, b = q.copy(), q.copy()
+                    a.conds.append((atom, True))
+                    b.conds.append((atom, False))
+                    if self.unknown_shape(q, n):
+                        a.unk.append(atom)
+                        b.unk.append(atom)
+                    res += [(a, True), (b, False)]
+                return res
         atom = self.key(p, n)
         k = self.known(p, atom)
         if k is not None:
@@ -909,6 +1008,26 @@ class Interp:
                         if len(paths) > self.maxpaths:
                             raise PathCap("loop unrolling")
                     return paths
+        if isinstance(s, ast.For) and not self.loop_summary:
+            # a list of abstract values built in place ([flag, hi, lo]) is iterated element by element
+            inner = s.iter.args[0] if isinstance(s.iter, ast.Call) and U(s.iter.func) == "enumerate" and len(s.iter.args) == 1 and not s.iter.keywords else s.iter
+            lv = self.ev(p, inner) if isinstance(inner, (ast.Name, ast.List, ast.Tuple, ast.Attribute)) else []
+            if len(lv) == 1 and isinstance(lv[0][1], Ctor) and lv[0][1].cls == "list" and len(lv[0][1].args) <= 24:
+                paths = [lv[0][0]]
+                for i_, x in enumerate(lv[0][1].args):
+                    nxt = []
+                    for q in paths:
+                        if inner is not s.iter:
+                            if isinstance(s.target, (ast.Tuple, ast.List)) and len(s.target.elts) == 2:
+                                q.env[U(s.target.elts[0])] = Const(i_)
+                                q.env[U(s.target.elts[1])] = x
+                            else:
+                                q.env[U(s.target)] = Ctor("list", [Const(i_), x], {})
+                        else:
+                            self.assign(q, s.target, x)
+                        nxt += self.run_block([q], s.body)
+                    paths = nxt
+                return paths
         if isinstance(s, ast.For) and self.loop_summary:
             return self.summarise_loop(p, s)
         if isinstance(s, ast.For):
@@ -937,6 +1056,14 @@ class Interp:
             if s.finalbody:
                 outs = self.run_block(outs, s.finalbody)
             return outs
+        if isinstance(s, ast.Expr) and isinstance(s.value, ast.Call) and U(s.value.func) == "setattr" and len(s.value.args) == 3 and not s.value.keywords:
+            nv = self.ev(p, s.value.args[1])
+            if len(nv) == 1 and isinstance(nv[0][1], Const) and isinstance(nv[0][1].v, str) and nv[0][1].v.isidentifier():
+                tgt = ast.copy_location(ast.Attribute(value=s.value.args[0], attr=nv[0][1].v, ctx=ast.Store()), s)
+                out = []
+                for q, v in self.ev(nv[0][0], s.value.args[2]):
+                    out += self.assign(q, tgt, v)
+                return out
         if isinstance(s, ast.Expr):
             if "expr" in self.hooks:
                 r = self.hooks["expr"](self, p, s)
